@@ -95,6 +95,8 @@ type DefaultClientDispatcher struct {
 	completionMutex     sync.Mutex
 	onRequestCancel     func(requestID string, request ocpp.Request, err *ocpp.Error)
 	timer               *time.Timer
+	timerMutex          sync.Mutex
+	timerDeadline       time.Time
 	paused              bool
 	timeout             time.Duration
 }
@@ -127,7 +129,10 @@ func (d *DefaultClientDispatcher) Start() {
 	d.mutex.Lock()
 	defer d.mutex.Unlock()
 	d.requestChannel = make(chan bool, 1)
+	d.timerMutex.Lock()
 	d.timer = time.NewTimer(defaultTimeoutTick) // Default to 24 hours tick
+	d.timerDeadline = time.Now().Add(defaultTimeoutTick)
+	d.timerMutex.Unlock()
 	// Start from a clean state, in case the dispatcher was stopped while paused or while a request was completing
 	d.paused = false
 	select {
@@ -206,7 +211,8 @@ func (d *DefaultClientDispatcher) messagePump() {
 			}
 		case _, ok := <-d.timer.C:
 			// Timeout elapsed
-			if !ok {
+			if !ok || !d.timerExpired() {
+				// (an expiry that arrives before the current deadline belongs to an earlier arming of the timer)
 				continue
 			}
 			if d.pendingRequestState.HasPendingRequest() {
@@ -274,13 +280,25 @@ func (d *DefaultClientDispatcher) dispatchNextRequest() {
 // previous arming, and the message pump would take it for the timeout of whatever is pending next. The expiry may
 // have been consumed already (the pump is handling it), so it is drained without blocking.
 func (d *DefaultClientDispatcher) resetTimer(timeout time.Duration) {
+	d.timerMutex.Lock()
+	defer d.timerMutex.Unlock()
 	if !d.timer.Stop() {
 		select {
 		case <-d.timer.C:
 		default:
 		}
 	}
+	d.timerDeadline = time.Now().Add(timeout)
 	d.timer.Reset(timeout)
+}
+
+// timerExpired tells whether the current arming of the timeout timer has run out. Draining in resetTimer cannot catch
+// an expiry that was on its way to the channel when the timer was stopped: it arrives after the timer was re-armed,
+// before the new deadline, and is recognised by that.
+func (d *DefaultClientDispatcher) timerExpired() bool {
+	d.timerMutex.Lock()
+	defer d.timerMutex.Unlock()
+	return !time.Now().Before(d.timerDeadline)
 }
 
 func (d *DefaultClientDispatcher) Pause() {
